@@ -120,6 +120,7 @@ func init() {
 			}
 			return ""
 		})
+		c05GoOnly(r)
 	}
 
 	props["C15"] = func(r *Run) {
@@ -165,6 +166,28 @@ func init() {
 					cases = append(cases, c)
 					r.Dist["loop-var-assignment"]++
 				}
+			}
+		}
+		// a counter loop that makes NO iteration still assigns its variable (the initial value): read in the for-else
+		// branch and after the loop, whatever the name held before
+		for _, pre := range []SOp{{Kind: "static", Name: "zz", Val: int64(0)}, {Kind: "string", Name: "i", Val: "old"}, {Kind: "counter", Name: "i", Val: 77}, {Kind: "static", Name: "i", Val: int64(-1)}} {
+			for _, hdr := range []string{`{% for i := 5; i < 3; i++ %}`, `{% for i := 2; i > 4; i-- %}`, `{% for i := n; i < 0; i++ %}`, `{% for i := 0; i != 0; i++ %}`} {
+				src := `[{%= i %}]` + hdr + `body{% else %}E{%= i %}{% if i == 5 %}five{% endif %}{% endfor %}[{%= i %}]{% if i == 2 %}two{% endif %}{% if i == 9 %}nine{% endif %}{% for j := 0; j < 2; j++ %}{%= i %}{%= j %}{% endfor %}`
+				c := &RCase{Tpls: []TplDef{{Key: "main", Src: src, KeepFmt: true}}, Meta: map[string]any{"zero-iteration-loop-variable": hdr, "before": pre.Desc()}}
+				c.Ops = []SOp{pre, {Kind: "static", Name: "n", Val: int64(9)}, {Kind: "render", Key: "main"}, {Kind: "render", Key: "main"}}
+				cases = append(cases, c)
+				r.Dist["zero-iteration-loop-variable"]++
+			}
+		}
+		// two (three) renders of DIFFERENT templates on one context without Reset: the loop variables the first one left
+		// keep their values while the second one runs its own loops and reads them
+		for _, first := range []string{`{% for i := 0; i < 3; i++ %}.{% endfor %}`, `{% for i := 0; i < 2; i++ %}{% for q := 5; q > 3; q-- %}.{% endfor %}{% endfor %}`, `{% for k, e := range lst %}{% for i := 0; i < 3; i++ %}.{% endfor %}{% endfor %}`} {
+			for _, second := range []string{`{% for j := 7; j < 9; j++ %}[{%= i %}/{%= j %}]{% endfor %}{% if i == 3 %}Y{% else %}N{% endif %}`, `[{%= i %}]{% for j := 0; j < 2; j++ %}{% for l := 0; l < 2; l++ %}{%= i %}{% endfor %}{% endfor %}[{%= i %}{%= q %}]`,
+				`{% counter c = 4 %}{% for j := 10; j < 12; j++ %}{% counter c++ %}{%= i %}{% endfor %}[{%= c %}{%= i %}{%= j %}]`} {
+				c := &RCase{Tpls: []TplDef{{Key: "first", Src: first, KeepFmt: true}, {Key: "second", Src: second, KeepFmt: true}}, Meta: map[string]any{"renders-without-reset": first, "second": second}}
+				c.Ops = []SOp{{Kind: "strs", Name: "lst", Val: []string{"a", "b"}}, {Kind: "render", Key: "first"}, {Kind: "render", Key: "second"}, {Kind: "render", Key: "second"}, {Kind: "render", Key: "first"}, {Kind: "render", Key: "second"}}
+				cases = append(cases, c)
+				r.Dist["renders-without-reset"]++
 			}
 		}
 		runSessions(r, cases, outputDiffers)
